@@ -131,6 +131,8 @@ pub trait Monitor {
     fn classify(&mut self, _case: &Case, signature: &str) -> String {
         signature.to_string()
     }
+    /// regexes of the open known findings of this property (called once, before any case runs)
+    fn set_known(&mut self, _signatures: &[String]) {}
     /// counters that must reach a minimum for the run to count (else exit 2, inconclusive)
     fn floors(&self, _tier: Tier) -> Vec<(String, u64)> {
         vec![]
@@ -249,6 +251,7 @@ pub struct WorkArgs {
     pub start: u64,
     pub budget_s: f64,
     pub dir: PathBuf,
+    pub verif_dir: PathBuf,
 }
 
 fn shrink_case(mon: &mut dyn Monitor, case: &Case, signature: &str, time_limit: Duration) -> (Case, String, u32) {
@@ -285,6 +288,7 @@ fn shrink_case(mon: &mut dyn Monitor, case: &Case, signature: &str, time_limit: 
 
 pub fn worker_main(mon: &mut dyn Monitor, args: WorkArgs) -> i32 {
     install_panic_hook();
+    mon.set_known(&open_known_signatures(&args.verif_dir, mon.id()));
     let plan = mon.plan(args.tier);
     let tag = format!("s{}.k{}", args.shard, args.start);
     let journal_path = args.dir.join(format!("s{}.journal", args.shard));
@@ -322,6 +326,7 @@ pub fn worker_main(mon: &mut dyn Monitor, args: WorkArgs) -> i32 {
     let mut cases_run = 0u64;
     let mut held = 0u64;
     let mut violations_found = 0u64;
+    let mut sig_counts: BTreeMap<String, u32> = BTreeMap::new();
     let t0 = Instant::now();
     let mut last_flush = Instant::now();
     let mut journal = std::fs::OpenOptions::new().create(true).write(true).truncate(true).open(&journal_path).ok();
@@ -388,6 +393,14 @@ pub fn worker_main(mon: &mut dyn Monitor, args: WorkArgs) -> i32 {
             Verdict::Discard(r) => *discards.entry(r).or_insert(0) += 1,
             Verdict::Violated { signature, detail, narrowed } => {
                 violations_found += 1;
+                let seen = sig_counts.entry(signature.clone()).or_insert(0u32);
+                *seen += 1;
+                if *seen > 3 {
+                    // enough witnesses of this class from this worker; keep exploring
+                    cov.hit("violation_candidates_not_recorded_(class_already_has_3)");
+                    index += args.nshards;
+                    continue;
+                }
                 let base = narrowed.unwrap_or_else(|| case.clone());
                 // shrinking may be slow: no watchdog while shrinking (bounded by its own timer)
                 let (shrunk, sdetail, steps) = shrink_case(mon, &base, &signature, Duration::from_secs(20));
@@ -401,8 +414,8 @@ pub fn worker_main(mon: &mut dyn Monitor, args: WorkArgs) -> i32 {
                 if let Ok(mut f) = std::fs::OpenOptions::new().create(true).append(true).open(&viol_path) {
                     let _ = writeln!(f, "{}", serde_json::to_string(&rec).unwrap());
                 }
-                if violations_found >= 40 {
-                    cov.hit("stopped_after_40_violation_candidates");
+                if sig_counts.len() >= 60 {
+                    cov.hit("stopped_after_60_distinct_violation_classes");
                     break;
                 }
             }
@@ -469,6 +482,8 @@ pub fn replay_in_subprocess(id: &str, case: &Case, dir: &Path, wall_limit_s: f64
         .arg("replay-case")
         .arg(id)
         .arg(&file)
+        .arg("--verif-dir")
+        .arg(std::env::var("DLVERIF_VERIF_DIR").unwrap_or_else(|_| "/verif".into()))
         .stdin(Stdio::null())
         .stdout(Stdio::piped())
         .stderr(Stdio::null())
@@ -519,12 +534,26 @@ pub struct KnownFinding {
     pub property: String,
     pub key: String,
     pub status: String, // open | fixed
+    /// anchored regular expression over the fine signature of a failing case
     pub signature: String,
     #[serde(default)]
     pub witness: Option<String>,
     pub what: String,
     #[serde(default)]
     pub commit: Option<String>,
+}
+
+impl KnownFinding {
+    pub fn matches(&self, sig: &str) -> bool {
+        match regex::Regex::new(&format!("^(?:{})$", self.signature)) {
+            Ok(r) => r.is_match(sig),
+            Err(_) => self.signature == sig,
+        }
+    }
+}
+
+pub fn open_known_signatures(verif_dir: &Path, id: &str) -> Vec<String> {
+    load_known(verif_dir).into_iter().filter(|k| k.property == id && k.status == "open").map(|k| format!("^(?:{})$", k.signature)).collect()
 }
 
 pub fn load_known(verif_dir: &Path) -> Vec<KnownFinding> {
@@ -540,6 +569,7 @@ pub fn load_known(verif_dir: &Path) -> Vec<KnownFinding> {
 
 pub fn drive(id: &str, make: &dyn Fn() -> Box<dyn Monitor>, args: DriveArgs) -> i32 {
     let t0 = Instant::now();
+    std::env::set_var("DLVERIF_VERIF_DIR", &args.verif_dir);
     let mut mon = make();
     let plan = mon.plan(args.tier);
     let budget = args.budget_s.unwrap_or(plan.budget_s);
@@ -572,7 +602,7 @@ pub fn drive(id: &str, make: &dyn Fn() -> Box<dyn Monitor>, args: DriveArgs) -> 
             let (status, res) = replay_in_subprocess(id, &case, &dir, mon.case_cpu_limit_s() * 4.0 + 30.0);
             let (violated, sig, detail) = classify_replay(&status, &res, mon.death_is_violation());
             if violated {
-                if k.status == "open" && sig == k.signature {
+                if k.status == "open" && k.matches(&sig) {
                     known_seen.insert(k.key.clone());
                 } else {
                     // a fixed finding came back, or the witness now fails differently
@@ -608,6 +638,8 @@ pub fn drive(id: &str, make: &dyn Fn() -> Box<dyn Monitor>, args: DriveArgs) -> 
             .arg(format!("{}", budget_s))
             .arg("--dir")
             .arg(&dir)
+            .arg("--verif-dir")
+            .arg(&args.verif_dir)
             .stdin(Stdio::null())
             .stdout(Stdio::null())
             .stderr(Stdio::piped())
@@ -752,7 +784,7 @@ pub fn drive(id: &str, make: &dyn Fn() -> Box<dyn Monitor>, args: DriveArgs) -> 
             continue;
         }
         // known finding?
-        if let Some(k) = known.iter().find(|k| k.status == "open" && k.signature == sig2) {
+        if let Some(k) = known.iter().find(|k| k.status == "open" && k.matches(&sig2)) {
             known_seen.insert(k.key.clone());
             continue;
         }
@@ -773,7 +805,7 @@ pub fn drive(id: &str, make: &dyn Fn() -> Box<dyn Monitor>, args: DriveArgs) -> 
     let replay_dir = args.verif_dir.join("replays").join(id);
     let mut viol_written = 0usize;
     for (c, status) in &violations {
-        if viol_written >= 10 {
+        if viol_written >= std::env::var("DLVERIF_MAX_VIOL").ok().and_then(|v| v.parse().ok()).unwrap_or(10usize) {
             break;
         }
         let _ = std::fs::create_dir_all(&replay_dir);
@@ -797,7 +829,15 @@ pub fn drive(id: &str, make: &dyn Fn() -> Box<dyn Monitor>, args: DriveArgs) -> 
     counters.insert("cases".into(), cases);
     counters.insert("held".into(), held);
     for (k, min) in mon.floors(args.tier) {
-        let have = if k == "evaluations" { evaluations } else if k == "distinct_nontrivial" { distinct.len() as u64 } else { *counters.get(&k).unwrap_or(&0) };
+        let have = if k == "evaluations" {
+            evaluations
+        } else if k == "distinct_nontrivial" {
+            distinct.len() as u64
+        } else if let Some(prefix) = k.strip_prefix("distinct_prefix:") {
+            counters.keys().filter(|c| c.starts_with(prefix)).count() as u64
+        } else {
+            *counters.get(&k).unwrap_or(&0)
+        };
         if have < min {
             floor_failures.push(format!("{}: {} < floor {}", k, have, min));
         }
